@@ -1,6 +1,6 @@
 SPECIFICATION Spec
 CONSTANTS
-  KindSet = {"handler", "sink", "qsensor"}
+  KindSet = {"handler", "sink", "qsensor", "builder"}
   RunDurs = {0, 2}
   MaxOps = 8
   MaxAssets = 4
